@@ -1,19 +1,21 @@
 /-
 C12 — hidden objects leave no trace; private objects are always marked private.
 
-Over the `Output` model (lean/PdModel/Output.lean: the producer table of DESIGN.md §7 C12 as a function
-from the object table to the list of mentions, each row with the guard the code has) and the `Privacy`
-model (lean/PdModel/Privacy.lean).  Lemmas about the traversal and the one-pass characterisation
-`Output.origin` ("every emitted mention comes from its row's code path") are in PdProps/C11.lean.
+Over the `Output` model (the producer table of DESIGN.md §7 C12 as a function from the object table to the
+`taglink` requests and listing entries, then the visibility guard inside `taglink`, aaed9bd) and the
+`Privacy` model.  Traversal lemmas, `origin` and `mem_emits` are in PdProps/C11.lean.
 
 * `Privacy.hidden_inherits` / `Output.hidden_inherits` / `Output.hidden_inside`: a hidden container makes
   everything inside it invisible.
-* `Output.no_trace`: rows whose code tests `isVisible` never mention a hidden object (or anything
-  inside one); `Output.no_trace_files`: no page file, anchor, search document or inventory line.
-* `Output.private_marked`: every listing entry of a PRIVATE object carries the marker.
-* The full statement over *all* rows is false of the current code (class-signature links, `overrides`
-  notes, via-bases, cross-references and annotation links, copied summaries, hidden roots):
-  `Output.no_trace_partial` under the decidable hypothesis `noHiddenRefs`, `Output.no_trace_counterexample`.
+* `Output.no_trace` (all 28 rows): a mention of an object that is not visible is never a hyperlink
+  (`no_trace_links`) and can only be one of the two root rows; `Output.no_trace_files`: no page file,
+  anchor, search document or inventory line.
+* `Output.private_marked` / `public_unmarked`: the marker on the 9 listing rows.
+* Still false of the current code (open findings): the rows of a hidden *root* in moduleIndex.html /
+  index.html (`no_trace_partial` under "no root is hidden", `no_trace_counterexample_root`), and the
+  unlinked base nodes of classIndex.html (`no_trace_texts_partial` under `noHiddenBaseNames`,
+  `no_trace_texts_counterexample`).
+* `no_trace_counterexample_old`: historical (DESIGN §8-11, before aaed9bd).
 -/
 import PdProps.C11
 
